@@ -6,7 +6,7 @@ CHECKS = {
  # id: (level, technique, text, note, design_ref)
  "C17": ("exploration",
          "exhaustive enumeration of a finite artefact: every rule group/rule, registry entry and documentation entry compared with its recompiled/regenerated counterpart",
-         "Complete enumeration (exhaustive:true) of all rule groups and rules (IR recompiled from rules.go through the precompile pipeline, compared field by field with the IR linked into the binaries; rulesdata.go bytes vs a real `go run precompile.go`), all registered checkers (each group <-> exactly one checker with equal metadata; hand-written names scanned independently from source) and all documentation entries (real makedocs run in a scratch tree vs docs/overview.md; rows, marks, sections parsed independently; `doc` and `doc <name>` of both CLI binaries).",
+         "Complete enumeration (exhaustive:true) of all rule groups and rules (IR recompiled from rules.go through the precompile pipeline, compared field by field with the IR linked into the binaries; rulesdata.go bytes vs a real `go run precompile.go`), all registered checkers (each group <-> exactly one checker with equal metadata; hand-written names scanned independently from source) and all documentation entries (real makedocs run in a scratch tree vs docs/overview.md; rows, marks, sections parsed independently; `doc` and `doc <name>` of both CLI binaries; default-enabled marks compared with the rule of the property text and with what both real CLI mains select when no flag is given).",
          "Trusts go/parser, go/types and the pinned go-ruleguard irconv/irprint as the compiler; the default-enabled rule is the 4-tag rule of the property text.",
          "DESIGN.md section 3, C17"),
  "C06": ("exploration",
@@ -16,7 +16,7 @@ CHECKS = {
          "DESIGN.md section 3, C06"),
  "C01": ("exploration",
          "bounded-exhaustive enumeration of program families (full products of small alphabets; all 1-deviation mutants of the maintainers' examples) x all checkers, oracle: no panic / no hang",
-         "Every program of explicitly described finite families is generated, filtered through go/types, and analysed by all 107 checkers on long-lived instances under recover and a watchdog: shadow/arity product (name x declaration kind x signature x argument shape x statement context, ~280k candidates, ~100k well-typed), odd-syntax snippets alone and in all ordered pairs, all 1-deviation mutants of the 211 example files (28 operators quick, 45 thorough), comment alphabet^k in 7 positions, string-constant token strings reaching regexp/fmt/flag calls, and each checker parameter over a small value domain.",
+         "Every program of explicitly described finite families is generated, filtered through go/types, and analysed by all 107 checkers on long-lived instances under recover and a watchdog: shadow/arity product (name x declaration kind x signature x argument shape x statement context, ~280k candidates, ~100k well-typed), odd-syntax snippets alone and in all ordered pairs, all 1-deviation mutants of the 211 example files (28 operators quick, 45 thorough), comment alphabet^k in 7 positions, string-constant token strings reaching regexp/fmt/flag calls, nestings of empty constructs (19 outer x 26 inner statement forms x 3 places), packages of struct types embedding each other in every way, and each checker parameter over a small value domain (over examples, odd and empty families). The dynamic-rules checker of every set runs a fixture of user rules with one rule group per kind of DSL filter on broad patterns; six one-rule fixtures apply object/value/size filters to arbitrary sub-matches in separate legs.",
          "Decides the property only inside the enumerated scopes (small-scope hypothesis): go/types is the judge of 'compilable'. A hang needs three solo re-runs of 120 s to count.",
          "DESIGN.md section 3, C01"),
  "C07": ("exploration",
@@ -26,12 +26,12 @@ CHECKS = {
          "DESIGN.md section 3, C07"),
  "C20": ("exploration",
          "bounded-exhaustive enumeration of shadowing programs with a metamorphic twin (same program, user declaration renamed): a diagnostic that exists only under the API spelling is reported on a namesake",
-         "Leg 1: full shadow family (34 qualified + 20 builtin subjects x 5 declaration kinds x 29 signatures x argument shapes x 27 contexts), go/types guarantees the subject identifier is a user declaration; each program with diagnostics is re-analysed with the declaration renamed to a same-length neutral identifier. Leg 2: every (example file, std import used only through functions): the import is replaced by a package-level variable with identical function signatures (so rule-based checkers see the same call shapes), plus neutral twin; a diagnostic present in original and namesake variant but absent in the neutral twin is API-specific and wrongly issued.",
+         "Leg 1: full shadow family (34 qualified + 20 builtin subjects x 7-9 declaration kinds (incl. shadowing after a real call in an earlier function of the file) x 29 signatures x argument shapes x 27 contexts), go/types guarantees the subject identifier is a user declaration; each program with diagnostics is re-analysed with the declaration renamed to a same-length neutral identifier. Leg 2: every (example file, std import used only through functions): the import is replaced by a package-level variable with identical function signatures (so rule-based checkers see the same call shapes) and, as a second variant, by a user package with the same name and identical function signatures under another import path, each plus neutral twin; a diagnostic present in original and namesake variant but absent in the neutral twin is API-specific and wrongly issued.",
          "Checkers whose documented subject is shadowing itself (builtinShadow, builtinShadowDecl, importShadow) are exempt. Known findings are keyed checker|subject.",
          "DESIGN.md section 3, C20"),
  "C03": ("model_checking",
          "explicit-state exploration of visit histories on real long-lived checker sets: all sequences up to a depth from the initial state, Eulerian tour over all ordered pairs of example files, all argument orders/groupings on the real binary; differential oracle = fresh instance",
-         "States are histories of (package,file) visits executed on real checker sets built like initCheckers does. All sequences of length <=3 (hand-written checkers; <=4 thorough) and <=2 (rule-based; <=3 thorough) over a 21-file alphabet chosen from the files that exercise per-checker scratch state, each from a fresh set; an Eulerian tour of the complete digraph over the example files on one long-lived full set (every ordered pair as consecutive visits, long histories); every permutation and consecutive grouping of three package arguments x concurrency on the real binary. In every state the output for the last file must equal that of a fresh set on the file alone.",
+         "States are histories of (package,file) visits executed on real checker sets built like initCheckers does. All sequences of length <=3 (hand-written checkers; <=4 thorough) and <=2 (rule-based; <=3 thorough) over a 21-file alphabet chosen from the files that exercise per-checker scratch state, each from a fresh set; an Eulerian tour of the complete digraph over the example files on one long-lived full set (every ordered pair as consecutive visits, long histories); the dynamic-rules checker with a fixture of user rules of every filter kind (package-, file-, version-dependent) explored by a BFS of its own and in the tour; for every package of the type-graph family (2 struct types, thorough 3, each embedding every ordered selection of the other types, a Query+Exec type and a Query-only type) every order of its use-site files on one long-lived set; every permutation and consecutive grouping of three package arguments x concurrency on the real binary. In every state the output for the last file must equal that of a fresh set on the file alone.",
          "No state abstraction or pruning is used (histories are not merged), so nothing is hidden by an incomplete fingerprint; the alphabet bounds what scratch state can be reached.",
          "DESIGN.md section 3, C03"),
  "C02": ("model_checking",
@@ -51,7 +51,7 @@ CHECKS = {
          "DESIGN.md section 3, C18"),
  "C19": ("fault_enumeration",
          "exhaustive enumeration of invalid configurations x front-ends x package counts, of analyzer-pass histories on the real init latch, and of load-fault target sets; oracle: clean non-zero exit with a naming message, never a panic, nothing analysed after failed init, outcome independent of package count",
-         "13 invalid configurations (5 malformed -go values, unknown failOn, rule pattern without match, two empty selections, two unparsable parameter values, unknown flag, unknown parameter) x the 4 real binaries x 1..3 packages; the analyzer's cached-configuration latch explored as an explicit state machine: all sequences of <=4 passes over {valid, valid-2, bad -go, empty selection, bad rule pattern} from the reset latch on the real prepareGocritic/runAnalyzer (driven through Analyzer.Run, latch reset/read by an overlay-added hook file); target sets of <=2 packages over {ok, syntax error, type error, unresolved import, mixed package clauses, import cycle, only _test files, empty dir} x 4 binaries x enable-all; ill-typed 1-deviation variants of the examples analysed in-process by all checkers.",
+         "17 invalid configurations (6 malformed -go values, unknown failOn alone and next to a valid value, rule pattern without match alone and before/after a matching one, two empty selections, two unparsable parameter values, unknown flag, unknown parameter) x the 4 real binaries x 1..3 packages; the analyzer's cached-configuration latch explored as an explicit state machine: all sequences of <=4 passes over {valid, valid-2, bad -go, empty selection, bad rule pattern} from the reset latch on the real prepareGocritic/runAnalyzer (driven through Analyzer.Run, latch reset/read by an overlay-added hook file); target sets of <=2 packages over {ok, syntax error, type error, unresolved import, mixed package clauses, import cycle, only _test files, empty dir} x 4 binaries x enable-all; ill-typed 1-deviation variants of the examples analysed in-process by all checkers.",
          "A faulty package that is analysed with zero diagnostics and exit 0 is accepted (the property allows 'analysed as far as its type information allows').",
          "DESIGN.md section 3, C19"),
  "C13": ("exploration",
@@ -71,12 +71,12 @@ CHECKS = {
          "DESIGN.md section 3, C15"),
  "C16": ("exploration",
          "exhaustive enumeration of path layouts on the real shortenLocation, of header-comment classes on the real isGenerated, and of flag/workspace configurations on the real binary against in-process diagnostics",
-         "(a) 4.2 million layouts: working dir (or none), GOPATH, GOROOT over all paths of depth <=2 and file over all paths of depth <=3 over the segments {go,src,w,go-x,w.go} (every prefix/equality/substring relation occurs), executed inside the instrumented binaries on the real shortenLocation; expanding the printed prefix must give back the input. (b) 16 header classes (licence, marker, marker as package doc, licence-then-marker, marker-then-licence, trailing/leading text, mid-sentence, block comments, after the package clause, second line of a group, lower case, no period, build tag first) on the real isGenerated vs go/ast.IsGenerated. (c) real go-critic/gocritic: workspace with plain/_test/generated/generated-test/clean files, same-named files in different packages of which one is generated (both orders), a directory named w.go, x checkTests x checkGenerated x exitCode {1,0,3,255} x shorterErrLocation x {module root, sub-directory, absolute arguments} x package sets: every expected diagnostic exactly once with a location that resolves to the real file:line:col, nothing for filtered files, exit 0 iff no line else the configured code.",
+         "(a) 4.2 million layouts: working dir (or none), GOPATH, GOROOT over all paths of depth <=2 and file over all paths of depth <=3 over the segments {go,src,w,go-x,w.go} (every prefix/equality/substring relation occurs), executed inside the instrumented binaries on the real shortenLocation; expanding the printed prefix must give back the input. (b) 16 header classes (licence, marker, marker as package doc, licence-then-marker, marker-then-licence, trailing/leading text, mid-sentence, block comments, after the package clause, second line of a group, lower case, no period, build tag first) on the real isGenerated vs go/ast.IsGenerated. (c) real go-critic/gocritic: workspace with plain/_test/generated/generated-test/clean files, same-named files in different packages of which one is generated (both orders), a directory named w.go, x checkTests x checkGenerated x exitCode {1,0,3,255} x shorterErrLocation x {module root, sub-directory, absolute arguments} x package sets, plus -enable lists that select one checker through several keys (name twice, name + tag, all tags): every expected diagnostic exactly once with a location that resolves to the real file:line:col, nothing for filtered files, exit 0 iff no line else the configured code.",
          "Expected diagnostics come from the same checker run in-process (assignOp); $GOROOT-prefixed output is only covered by the layout sweep.",
          "DESIGN.md section 3, C16"),
  "C08": ("exploration",
          "exhaustive differential enumeration: workspaces x configurations expressible in both flag dialects x the four real binaries, pairwise equality of normalised diagnostics; registry and quick-fix forwarding compared in-process",
-         "4 workspaces (single package, in-package tests, external tests, three packages) x {default, enable-all, two -go versions, 8 enable/disable list pairs with explicit -disable on both sides, every checker parameter at a non-default value} x go-critic, gocritic, go-critic-analysis, gocritic-analysis: diagnostics normalised to (file,line,col,checker,message) must be equal as sets and each printed exactly once. In-process: every checker registered for the CLI must be in the analyzer's registry snapshot (read through an overlay-added hook), and a quick fix (commentFormatting) must arrive as exactly one SuggestedFix with one TextEdit equal to From/To/Replacement.",
+         "6 workspaces (single package, in-package tests, external tests, three packages, explicit file arguments, packages sharing package names and file base names) x {default, enable-all, two -go versions, 8 enable/disable list pairs with explicit -disable on both sides, every checker parameter at a non-default value} x go-critic, gocritic, go-critic-analysis, gocritic-analysis: diagnostics normalised to (file,line,col,checker,message) must be equal as sets and each printed exactly once. In-process: every checker registered for the CLI must be in the analyzer's registry snapshot (read through an overlay-added hook), and a quick fix (commentFormatting) must arrive as exactly one SuggestedFix with one TextEdit equal to From/To/Replacement.",
          "go-critic is the reference front-end. The missing rule-based checkers in the analyzer are one recorded finding (keyed by root cause), so any other disagreement still alarms.",
          "DESIGN.md section 3, C08"),
  "C11": ("exploration",
